@@ -24,11 +24,16 @@ const Property = "C10"
 //	write:         Write of N values
 //	writeStriped:  WriteStriped of N-long channels
 //	set:           SetSample at position N mod Len
-//	reslice:       b = b.Slice(0, N mod (K+1))
+//	reslice:       b = b.Slice(0, N mod (K+1)) becomes the current header; the earlier headers stay usable
+//
+// V selects which header of the buffer (the one returned by Get, or one of its
+// reslices from frame 0) the operation goes through, modulo their number; the
+// default 0 is the most recent one. Put may return any of them.
 type Op struct {
 	Kind string `json:"kind"`
 	I    int    `json:"i,omitempty"`
 	N    int    `json:"n,omitempty"`
+	V    int    `json:"v,omitempty"`
 }
 
 type Case struct {
@@ -42,7 +47,9 @@ type Case struct {
 var Types = []string{"int8", "uint8", "int16", "uint16", "int32", "uint32", "int64", "uint64", "int", "uint", "uintptr", "float32", "float64"}
 
 type held struct {
-	buf   kit.AnyBuf // current header (may be a reslice from frame 0)
+	buf  kit.AnyBuf   // header the current operation goes through
+	hdrs []kit.AnyBuf // all headers of this buffer: hdrs[0] from Get, then the reslices from frame 0; the last is the most recent
+
 	alias kit.AnyBuf // full-capacity view of the same storage
 	model []kit.Val
 	id    int
@@ -65,9 +72,9 @@ func Check(c *Case) (res kit.Result) {
 	pool := kit.NewAnyPool(c.T, al)
 	want := kit.Hdr{Len: C * L, Cap: C * K, Length: L, Capacity: K, Channels: C, BitDepth: kit.Info(c.T).Bits}
 	var out []*held
-	wasPut := map[any]bool{}    // buffer objects handed to Put
-	putDirty := map[any]bool{}  // ... that had been written to
-	putShort := map[any]bool{}  // ... that were resliced shorter
+	wasPut := map[any]bool{}   // buffer objects handed to Put
+	putDirty := map[any]bool{} // ... that had been written to
+	putShort := map[any]bool{} // ... that were resliced shorter
 	checkouts := 0
 	zero := kit.AllocAny(c.T, signal.Allocator{Channels: 1, Length: 1, Capacity: 1}).Get(0)
 
@@ -89,6 +96,12 @@ func Check(c *Case) (res kit.Result) {
 				continue
 			}
 			h = out[((op.I%len(out))+len(out))%len(out)]
+			// header selection: 0 = most recent
+			vi := ((op.V % len(h.hdrs)) + len(h.hdrs)) % len(h.hdrs)
+			h.buf = h.hdrs[len(h.hdrs)-1-vi]
+			if vi != 0 {
+				res.Class("olderHeaderUsed")
+			}
 		}
 		n := op.N
 		if n < 0 {
@@ -133,7 +146,7 @@ func Check(c *Case) (res kit.Result) {
 					res.Class("recycledWithLengthAboveZero")
 				}
 			}
-			nh := &held{buf: b, alias: alias, id: checkouts}
+			nh := &held{buf: b, hdrs: []kit.AnyBuf{b}, alias: alias, id: checkouts}
 			// ownership stamp over the whole capacity
 			nh.model = make([]kit.Val, C*K)
 			for i := range nh.model {
@@ -231,7 +244,7 @@ func Check(c *Case) (res kit.Result) {
 			if k < h.buf.Hdr().Length {
 				h.short = true
 			}
-			h.buf = h.buf.Slice(0, k)
+			h.hdrs = append(h.hdrs, h.buf.Slice(0, k))
 		default:
 			continue
 		}
@@ -250,6 +263,7 @@ func FP(c *Case) uint64 {
 		h.Str(op.Kind)
 		h.Int(op.I)
 		h.Int(op.N)
+		h.Int(op.V)
 	}
 	return h.Sum()
 }
@@ -277,6 +291,9 @@ func Gen(t *rapid.T) *Case {
 		if op.Kind != "get" && op.Kind != "gc" {
 			op.I = rapid.IntRange(0, maxOut-1).Draw(t, "i")
 			op.N = rapid.IntRange(0, 40).Draw(t, "n")
+			if rapid.IntRange(0, 2).Draw(t, "olderHeader") == 0 {
+				op.V = rapid.IntRange(1, 3).Draw(t, "v")
+			}
 		}
 		c.Ops = append(c.Ops, op)
 	}
